@@ -1,7 +1,7 @@
 /-
 Lemmas/LayoutBranch.lean — `fixOne` on relative (branch) statements and on PCR statements.
 -/
-import CoCoVerif.Lemmas.LayoutImage
+import CoCoVerif.Lemmas.LayoutTrace
 import CoCoVerif.Spec.MC6809
 
 namespace CoCo.Asm
@@ -281,15 +281,22 @@ theorem Chained.forward {ps : List Bool} {l : List Stmt} {a : Nat} (h : Chained 
 /-! ### from the translated statement to the statement that enters `fixAll` -/
 
 theorem translate_relative {o : Operand} {row : Gen.InstrRow} {p : Pkg} (h : translateOperand o row = .ok p)
-    (hk : o.kind = .relative) : p.additional = (if o.value.isAddress then o.value else .none) ∧ p.size = row.relSz := by
+    (hk : o.kind = .relative) :
+    p.additional = o.value ∧ o.value.isAddress = true ∧ p.size = row.relSz ∧ opVal row.rel = .ok p.opCode ∧
+      p.postByte = .none ∧ p.needsRes = false ∧ p.choices = [] := by
   unfold translateOperand at h
   rw [hk] at h
   simp only [bind, Except.bind, pure, Except.pure, throw, throwThe, MonadExceptOf.throw] at h
   split at h
   · cases h
-  · split at h
+  · rename_i op hop
+    split at h
     · cases h
-    · cases h; exact ⟨rfl, rfl⟩
+    · split at h
+      · cases h
+      · rename_i hna
+        cases h
+        exact ⟨rfl, by simpa using hna, rfl, hop, rfl, rfl, rfl⟩
 
 /-- operand, row, `additional` and size class are the same -/
 def AddlRel (s s' : Stmt) : Prop :=
@@ -306,26 +313,229 @@ theorem Stages.addl24 {fs : Files} {lines : List Str} {a : Assembly} (st : Stage
     (assignAddrs_pw st.haddr).mono (by rintro s s' ⟨_, rfl⟩; exact ⟨rfl, rfl, rfl, rfl⟩)
   exact h23.trans h34 (fun _ _ _ => AddlRel.trans)
 
-/-- the statement `s4` that enters `fixAll` at index `i`, for a final statement `s` with a relative operand:
-its `additional` is the operand value when that is a statement index -/
+/-! ### `fitWidth` leaves a branch field as `fixOne` stored it -/
+
+theorem fitNum_nat {n w : Nat} (hw : w = 2 ∨ w = 4) (h : n < 16 ^ w) :
+    fitNum n false w = .ok (.numeric n (some w) .extended false) := by
+  unfold fitNum
+  have hn : n ≤ 65535 := by
+    rcases hw with rfl | rfl
+    · have : (16 : Nat) ^ 2 = 256 := by decide
+      omega
+    · have : (16 : Nat) ^ 4 = 65536 := by decide
+      omega
+  rcases hw with rfl | rfl
+  · have e1 : (2 : Int) ^ (4 * 2) = 256 := by decide
+    have e2 : (2 : Int) ^ (4 * 2 - 1) = 128 := by decide
+    have e3 : (16 : Nat) ^ 2 = 256 := by decide
+    simp only [Bool.false_eq_true, if_false, e1, e2]
+    rw [if_pos ⟨by omega, by omega⟩, Int.emod_eq_of_lt (by omega) (by omega)]
+    exact numericOfInt_nat hn 2
+  · have e1 : (2 : Int) ^ (4 * 4) = 65536 := by decide
+    have e2 : (2 : Int) ^ (4 * 4 - 1) = 32768 := by decide
+    have e3 : (16 : Nat) ^ 4 = 65536 := by decide
+    simp only [Bool.false_eq_true, if_false, e1, e2]
+    rw [if_pos ⟨by omega, by omega⟩, Int.emod_eq_of_lt (by omega) (by omega)]
+    exact numericOfInt_nat hn 4
+
+/-- the signed number `NumericValue.fit` looks at -/
+def fitInt (n : Nat) (neg : Bool) : Int := if neg then -(n : Int) else n
+
+/-- what `fitNum` returns: the number is in `-2^(4w-1) .. 2^(4w)-1`, the field is its residue modulo `2^(4w)`, with
+size hint `w` -/
+theorem fitNum_ok {n : Nat} {neg : Bool} {w : Nat} {v : Value} (hw : w = 2 ∨ w = 4) (h : fitNum n neg w = .ok v) :
+    -((2 : Int) ^ (4 * w - 1)) ≤ fitInt n neg ∧ fitInt n neg < (2 : Int) ^ (4 * w) ∧
+      v = .numeric (fitInt n neg % (2 : Int) ^ (4 * w)).toNat (some w) .extended false := by
+  unfold fitNum at h
+  change (if -((2 : Int) ^ (4 * w - 1)) ≤ fitInt n neg ∧ fitInt n neg < (2 : Int) ^ (4 * w) then
+      numericOfInt (fitInt n neg % (2 : Int) ^ (4 * w)) (some w) .none else .error .valueType) = .ok v at h
+  split at h
+  · rename_i hr
+    refine ⟨hr.1, hr.2, ?_⟩
+    have hpow : (0 : Int) < (2 : Int) ^ (4 * w) ∧ (2 : Int) ^ (4 * w) ≤ 65536 := by
+      rcases hw with rfl | rfl
+      · have : (2 : Int) ^ (4 * 2) = 256 := by decide
+        omega
+      · have : (2 : Int) ^ (4 * 4) = 65536 := by decide
+        omega
+    generalize (2 : Int) ^ (4 * w) = P at h hpow hr ⊢
+    have h0 : 0 ≤ fitInt n neg % P := Int.emod_nonneg _ (by omega)
+    have h1 : fitInt n neg % P < P := Int.emod_lt_of_pos _ hpow.1
+    generalize fitInt n neg % P = z at h h0 h1 ⊢
+    unfold numericOfInt at h
+    rw [if_neg (by omega)] at h
+    simp only [postInit, initHint] at h
+    have hz : ¬ z < 0 := by omega
+    simp [hz] at h
+    rw [← h]
+    congr 1
+    omega
+  · cases h
+
+/-- the statement classes `fitWidth` leaves alone -/
+def fitSkipped (row : Gen.InstrRow) : Bool :=
+  (row.isPseudo && !(row.isMultiByte || row.isMultiWord)) || row.isSpecial
+
+/-- `fitWidth` on a statement with a numeric field: the field gets the width `w` (2 or 4 hex digits) that the size
+leaves after op code and post byte, and holds the residue of the signed number modulo `16^w` -/
+theorem fitWidth_numeric {s s' : Stmt} {n : Nat} {h : Option Nat} {m : Mode} {neg : Bool}
+    (hfit : fitWidth s = .ok s') (hrow : fitSkipped s.row = false)
+    (hadd : s.pkg.additional = .numeric n h m neg) :
+    ∃ a b w, s.pkg.opCode.hexLen? = some a ∧ s.pkg.postByte.hexLen? = some b ∧ (w = 2 ∨ w = 4) ∧
+      2 * s.pkg.size = a + b + w ∧
+      -((2 : Int) ^ (4 * w - 1)) ≤ fitInt n neg ∧ fitInt n neg < (2 : Int) ^ (4 * w) ∧
+      s' = withAdditional s (.numeric (fitInt n neg % (2 : Int) ^ (4 * w)).toNat (some w) .extended false) := by
+  unfold fitWidth at hfit
+  unfold fitSkipped at hrow
+  rw [if_neg (by rw [hrow]; simp), hadd] at hfit
+  dsimp only at hfit
+  split at hfit
+  · rename_i a b ha hb
+    split at hfit
+    · rename_i hdig
+      have hw : ∃ w : Nat, (w = 2 ∨ w = 4) ∧ (2 * (s.pkg.size : Int) - a - b) = (w : Int) := by
+        rcases hdig with hd | hd
+        · exact ⟨2, .inl rfl, hd⟩
+        · exact ⟨4, .inr rfl, hd⟩
+      obtain ⟨w, hw, hweq⟩ := hw
+      rw [hweq, Int.toNat_natCast] at hfit
+      cases hf : fitNum n neg w with
+      | error e => rw [hf] at hfit; cases hfit
+      | ok v =>
+        rw [hf] at hfit
+        obtain ⟨r1, r2, rfl⟩ := fitNum_ok hw hf
+        cases hfit
+        exact ⟨a, b, w, ha, hb, hw, by omega, r1, r2, rfl⟩
+    · cases hfit
+  · cases hfit
+
+/-- `fitWidth` on a statement whose field is not a number (none, or a literal list / string) changes nothing -/
+theorem fitWidth_nonnumeric {s s' : Stmt} (hfit : fitWidth s = .ok s') (hadd : s.pkg.additional.isNumeric = false) :
+    s' = s := by
+  unfold fitWidth at hfit
+  split at hfit
+  · cases hfit; rfl
+  · split at hfit
+    · rename_i heq; rw [heq] at hadd; cases hadd
+    · cases hfit; rfl
+
+theorem fitWidth_skipped {s s' : Stmt} (hfit : fitWidth s = .ok s') (hrow : fitSkipped s.row = true) : s' = s := by
+  unfold fitWidth at hfit
+  unfold fitSkipped at hrow
+  rw [if_pos hrow] at hfit
+  cases hfit; rfl
+
+/-- the instruction table: a branch row is neither pseudo nor special, and its size is the op code plus a field
+of 2 (short) or 4 (long) hex digits -/
+def relRowOk (r : Gen.InstrRow) : Bool :=
+  !(r.isShortBranch || r.isLongBranch) ||
+    (!r.isPseudo && !r.isSpecial &&
+      match opVal r.rel with
+      | .ok v => (match v.hexLen? with
+                  | some a => 2 * r.relSz == a + (if r.isShortBranch then 2 else 4)
+                  | none => false)
+      | .error _ => false)
+
+theorem relRowOk_all : ∀ r ∈ Gen.instructions, relRowOk r = true := by decide +kernel
+
+theorem withAdditional_self {s : Stmt} {v : Value} (h : s.pkg.additional = v) : withAdditional s v = s := by
+  subst h; rfl
+
+/-- a statement whose field was stored by `fixOne` with the width of its branch class passes `fitWidth` unchanged -/
+theorem fitWidth_branch {s : Stmt} {d a : Nat} (hp : s.row.isPseudo = false) (hsp : s.row.isSpecial = false)
+    (hadd : s.pkg.additional = branchValue s.row.isShortBranch d)
+    (hd : d < 16 ^ (if s.row.isShortBranch then 2 else 4))
+    (hop : s.pkg.opCode.hexLen? = some a) (hpb : s.pkg.postByte = .none)
+    (hsz : 2 * s.pkg.size = a + (if s.row.isShortBranch then 2 else 4)) : fitWidth s = .ok s := by
+  obtain ⟨label, mn, row, operand, ot, cm, pkg, fx, hint⟩ := s
+  obtain ⟨opc, addr, pb, addl, sz, nr, ch, mx⟩ := pkg
+  dsimp only at hp hsp hadd hd hop hpb hsz
+  subst hadd hpb
+  unfold fitWidth
+  dsimp only
+  rw [if_neg (by simp [hp, hsp])]
+  unfold branchValue
+  dsimp only
+  rw [hop]
+  dsimp only [Value.hexLen?]
+  have hdig : (2 * (sz : Int) - (a : Nat) - (0 : Nat)) = ((if row.isShortBranch then 2 else 4 : Nat) : Int) := by
+    omega
+  rw [hdig]
+  have hw : (if row.isShortBranch then 2 else 4 : Nat) = 2 ∨ (if row.isShortBranch then 2 else 4 : Nat) = 4 := by
+    cases row.isShortBranch <;> simp
+  rw [if_pos (by rcases hw with h | h <;> rw [h] <;> simp)]
+  rw [Int.toNat_natCast, fitNum_nat hw hd]
+
+/-- a branch statement of the instruction table whose field was stored by `fixOne` passes `fitWidth` unchanged -/
+theorem branch_fit {s4 : Stmt} (hrow : s4.row ∈ Gen.instructions)
+    (hbr : (s4.row.isShortBranch || s4.row.isLongBranch) = true) (hopc : opVal s4.row.rel = .ok s4.pkg.opCode)
+    (hpb : s4.pkg.postByte = .none) (hsz : s4.pkg.size = s4.row.relSz) {d : Nat}
+    (hd : d < 16 ^ (if s4.row.isShortBranch then 2 else 4)) :
+    fitWidth (withAdditional s4 (branchValue s4.row.isShortBranch d)) =
+      .ok (withAdditional s4 (branchValue s4.row.isShortBranch d)) := by
+  have htab := relRowOk_all _ hrow
+  unfold relRowOk at htab
+  rw [hbr, hopc] at htab
+  simp only [Bool.not_true, Bool.false_or, Bool.and_eq_true, Bool.not_eq_true'] at htab
+  obtain ⟨⟨hp, hsp⟩, hlen⟩ := htab
+  cases hl : s4.pkg.opCode.hexLen? with
+  | none => rw [hl] at hlen; cases hlen
+  | some a =>
+    rw [hl] at hlen
+    simp only [beq_iff_eq] at hlen
+    exact fitWidth_branch (s := withAdditional s4 (branchValue s4.row.isShortBranch d)) (a := a) hp hsp rfl hd hl hpb
+      (by show 2 * s4.pkg.size = _; rw [hsz]; exact hlen)
+
+/-- the statement `s4` that enters `fixAll` at index `i`, for a final statement `s` with a relative operand: its
+`additional` is the operand value, a statement index; `s1` is the statement after `fixOne`, `s` after `fitWidth`;
+the row is a branch row of the instruction table, the op code is that of the row, there is no post byte -/
 theorem Stages.branch_pre {fs : Files} {lines : List Str} {a : Assembly} (st : Stages fs lines a)
     {i : Nat} {s : Stmt} (hs : a.stmts[i]? = some s) (hk : s.operand.kind = .relative) :
-    ∃ s4, st.ss4[i]? = some s4 ∧ fixOne st.ss4 i s4 = .ok s ∧ SameButAdditional s4 s ∧
-      s4.pkg.additional = (if s.operand.value.isAddress then s.operand.value else .none) := by
-  obtain ⟨s4, hs4, hsame⟩ := (fixAll_pw st.hfix).get' hs
-  obtain ⟨s', hs', hfix⟩ := (fixAll_ok st.hfix).2 i s4 hs4
-  rw [hs] at hs'; cases hs'
-  rw [Nat.zero_add] at hfix
-  obtain ⟨s2, hs2, hop, hrow, hadd, _⟩ := st.addl24.get' hs4
-  obtain ⟨s1, hs1, p, htr, rfl⟩ := (translateAll_pw st.htranslate).get' hs2
-  obtain ⟨v, rfl⟩ := hsame
-  have hop' : s4.operand = s1.operand := hop
-  have hk1 : s1.operand.kind = .relative := by rw [← hop']; exact hk
-  refine ⟨s4, hs4, hfix, ⟨v, rfl⟩, ?_⟩
-  rw [hadd]
-  show p.additional = _
-  rw [(translate_relative htr hk1).1]
-  show _ = if s4.operand.value.isAddress = true then s4.operand.value else Value.none
-  rw [hop']
+    ∃ s4 s1, st.ss4[i]? = some s4 ∧ fixOne st.ss4 i s4 = .ok s1 ∧ fitWidth s1 = .ok s ∧ SameButAdditional s4 s1 ∧
+      SameButAdditional s4 s ∧
+      s4.pkg.additional = s.operand.value ∧ s.operand.value.isAddress = true ∧
+      s4.row ∈ Gen.instructions ∧ (s4.row.isShortBranch || s4.row.isLongBranch) = true ∧
+      opVal s4.row.rel = .ok s4.pkg.opCode ∧ s4.pkg.postByte = .none ∧ s4.pkg.size = s4.row.relSz := by
+  obtain ⟨tr⟩ := st.trace hs
+  have hop : s.operand = tr.o := tr.operand_eq
+  have hko : tr.o.kind = .relative := by rw [← hop]; exact hk
+  -- the parsed operand is relative as well, so the row is a branch row
+  have hk0 : tr.s0.operand.kind = .relative := by
+    rcases resolveOperand_kind tr.hres with h | ⟨_, h | h⟩
+    · rw [← h]; exact hko
+    · rw [hko] at h; cases h
+    · rw [hko] at h; cases h
+  obtain ⟨txt, hcr⟩ := tr.parsed.2
+  obtain ⟨k1, k2, k3, k4⟩ := createOperand_kind hcr
+  have hbr : (tr.s0.row.isShortBranch || tr.s0.row.isLongBranch) = true := by
+    cases hp : tr.s0.row.isPseudo with
+    | true => have := k1 hp; rw [hk0] at this; cases this
+    | false =>
+      cases hsp : tr.s0.row.isSpecial with
+      | true => have := k2 hp hsp; rw [hk0] at this; cases this
+      | false =>
+        cases hb : (tr.s0.row.isShortBranch || tr.s0.row.isLongBranch) with
+        | true => rfl
+        | false =>
+          have := k4 hp hsp hb
+          rw [hk0] at this
+          rcases this with h | h | h | h | h <;> cases h
+  obtain ⟨t1, t2, t3, t4, t5, t6, t7⟩ := translate_relative tr.htr hko
+  have hfixed : (mkTranslated tr.s0 tr.o tr.p).fixedSize = true := by
+    show (!(tr.p.needsRes || !tr.p.choices.isEmpty)) = true
+    rw [t6, t7]; rfl
+  have h3 := tr.fixed hfixed
+  obtain ⟨v4, h4⟩ := tr.addr
+  have hrow4 : tr.s4.row = tr.s0.row := by rw [h4, h3]; rfl
+  have hpkg4 : tr.s4.pkg = { tr.p with address := v4 } := by rw [h4, h3]; rfl
+  refine ⟨tr.s4, tr.sf, tr.h4, tr.hfix, tr.hfit, fixOne_same tr.hfix,
+    (fixOne_same tr.hfix).trans (fitWidth_same tr.hfit), ?_, ?_, ?_, ?_, ?_, ?_, ?_⟩
+  · rw [hpkg4, hop]; exact t1
+  · rw [hop]; exact t2
+  · rw [hrow4]; exact tr.parsed.1
+  · rw [hrow4]; exact hbr
+  · rw [hrow4, hpkg4]; exact t4
+  · rw [hpkg4]; exact t5
+  · rw [hrow4, hpkg4]; exact t3
 
 end CoCo.Asm
